@@ -57,6 +57,35 @@ CLAIMS = {
              'hash is a function of the data only (MEMO). NOT decided: absence of accidental collisions, prefix-freeness.',
         technique='field-access-set comparison of Eq vs Hash cones; forbidden-callee scan over resolved callees',
         design_ref='§5 C20'),
+    'C12': dict(
+        category='other',
+        text='Static, exhaustive over the tables: the encoder alphabet constant equals the source-map v3 / RFC 4648 base64 '
+             'alphabet, the 256-entry decoder table is its exact inverse with two distinct separator codes and one invalid code '
+             '(TABLES, const-evaluated by the compiler, 320 entries); every byte any writer can put into an encoder buffer is a '
+             'base64 digit, "," or ";" (ALPHABET, sound over-approximation over all writers incl. helper functions and closures). '
+             'NOT decided: VLQ arithmetic, relative-field state, skip rules, the line-only encoder, round-trip equality.',
+        technique='compiler const-evaluation of the codec tables + constant byte-set dataflow into the encoder buffers',
+        design_ref='§5 C12'),
+    'C15': dict(
+        category='other',
+        text='Static: the key names the derived serializer of SourceMap writes are exactly the key names the raw-document reader '
+             'accepts (plus constant "version"), each bound to its namesake field (JSON-NAMES, read from the derived impls\' MIR '
+             'and FIELDS constant), and through TryFrom every field is rebuilt from the raw field its own key is read into '
+             '(JSON-FLOW) — so each field survives a round trip by name; several fields share a type, so a swap would compile. '
+             'NOT decided: escaping, parser totality, value equality after the round trip (simd-json/serde behaviour).',
+        technique='constant/def-use extraction from derived Serialize/Deserialize MIR; field-flow through TryFrom',
+        design_ref='§5 C15'),
+    'C17': dict(
+        category='other',
+        text='Static, for every string: every panic-capable MIR terminator (index, add, shl, shr, neg asserts) and every call '
+             'in the decode_mappings cone is discharged by a local range argument (constant index, zero-extended u8 < 256, '
+             'dominating guard on the same place with no intervening write, constant shifts, per-input-byte counters), the cone '
+             'has no recursion and its only loop consumes a slice iterator (DECODER-TOTAL; dev and, in thorough, release '
+             'configuration); SourceMap::from_json/from_slice/from_reader add no panic site of their own and propagate every error '
+             '(JSON-ENTRY; simd-json itself assumed total). NOT decided: panic-freedom of the streaming cone (≈250 arithmetic asserts, '
+             'indexing on map-supplied lines/indices) — reading found real panics there for wild maps; no discharge analysis is in reach.',
+        technique='interval/range discharge of MIR Assert terminators with guard provenance; loop/recursion census; panic-site census',
+        design_ref='§5 C17'),
 }
 
 NOT_APPLICABLE = {
